@@ -319,6 +319,20 @@ func (c *c05) exactCheck(salt int64) {
 	if h.stop {
 		return
 	}
+	// Readers that start in the middle go through the index (binary search, entry position and size), which a
+	// sequential read from 0 never consults: a recovered index that does not describe its log shows up here.
+	for k := int64(1); k <= 3 && !h.stop; k++ {
+		rc := h.model[int((salt*7919+k*104729)%int64(len(h.model)))]
+		h.readAll("C05/after", rc.off, false)
+	}
+	// (only when the high watermark names a retained message: what a committed reader owes when the HW points
+	// into a hole left by an interrupted clean, or beyond a truncated end, is not C05's matter)
+	if h.hw >= h.oldest() && h.find(h.hw) != nil && !h.stop {
+		h.readAll("C05/after", h.model[int((salt*31337)%int64(len(h.model)))].off, true)
+	}
+	if h.stop {
+		return
+	}
 	// reverse read from the end must mirror the forward read (dense logs only: no compaction configured)
 	if h.prog.Param("compact", 0) == 0 {
 		rr, err := h.log.NewReverseReader(h.next-1, true)
